@@ -136,7 +136,14 @@ func runC12(c *Ctx) {
 		for _, b := range clean.Blocks {
 			for _, in := range b.Instrs {
 				if g, ok := in.(*ssa.Go); ok {
-					sites = append(sites, startSite{in, termOf(g.Call.Args[len(g.Call.Args)-1])})
+					// the request handed to the deleting function: the argument of BindRequestInfo type
+					req := g.Call.Args[len(g.Call.Args)-1]
+					for _, a := range g.Call.Args {
+						if strings.HasSuffix(typeKey(a.Type()), "BindRequestInfo") {
+							req = a
+						}
+					}
+					sites = append(sites, startSite{in, termOf(req)})
 				}
 				mc, ok := in.(*ssa.MakeClosure)
 				if !ok {
